@@ -135,6 +135,27 @@ def run(chk, facts, tier, only=None):
                            f"decoder read the bytes at the type the receiver hopes for instead of the type they were written at",
                            where=f"{hh['span']['file']}:{st_.get('ln')}", ok_detail="expect <- expected type, wire <- wire type")
         chk.floor("Style literals built from the two types", n_style, 5)
+        # a vector of records is read as a map only if *both* entry types are pairs with the labels 0 and 1: positions are not labels
+        hm = c.method(r"^&mut candid::de::Deserializer", "deserialize_map", r"de::Deserializer$")
+        sm = Sides({}, SEEDS)
+        sm.scan(hm["body"])
+        covered = set()
+        for x in walk(hm["body"]):
+            if x.get("k") == "bin" and x.get("op") == "Eq":
+                for a_, b_ in ((x["a"], x["b"]), (x["b"], x["a"])):
+                    ids = [lit_value(y["args"][0]) for y in walk(b_) if y.get("k") == "call" and (callee(y) or "").endswith("Label::Id") and y.get("args")]
+                    if len(ids) == 1 and isinstance(ids[0], int):
+                        for sd_ in sm.of(a_):
+                            covered.add((sd_, ids[0]))
+            if x.get("k") == "mcall" and x["m"] == "is_tuple":
+                for sd_ in sm.of(x["recv"]):
+                    covered.update({(sd_, 0), (sd_, 1)})
+        want_cov = {(1, 0), (1, 1), (2, 0), (2, 1)}
+        chk.expect(want_cov <= covered, "deserialize_map:entry-labels-both-sides",
+                   f"deserialize_map must test that the expected *and* the wire entry record have exactly the labels 0 and 1 before reading the two "
+                   f"fields as key and value; label tests found for (side, label) {sorted(covered)} (1 = expected, 2 = wire): a wire record "
+                   f"{{key; value}} with other labels would be read positionally, which the untyped decoder rejects",
+                   where=f"{hm['span']['file']}:{hm['span']['lo']}", ok_detail="labels 0 and 1 tested on both sides")
         # key_text_fast: both the expected and the wire key type are text
         h = c.method(r"^&mut candid::de::Deserializer", "deserialize_map", r"de::Deserializer$")
         s = Sides({}, SEEDS)
